@@ -259,6 +259,9 @@ impl<C: Config> InputSession<C> {
         let query_hash = self.engine.hash(&query);
         let query_id = QueryID::new::<Q>(query_hash);
 
+        #[cfg(feature = "verif")]
+        qbice_storage::verif::yield_point("pre:session:set_input:before_lock").await;
+
         let mut snapshot = self.engine.get_exclusive_snapshot(query_hash).await;
 
         let query_value_fingerprint = self.engine.hash(&new_value);
@@ -330,6 +333,9 @@ impl<C: Config> InputSession<C> {
     ) -> SetInputResult {
         let query_hash = self.engine.hash(&query);
         let query_id = QueryID::new::<Q>(query_hash);
+
+        #[cfg(feature = "verif")]
+        qbice_storage::verif::yield_point("pre:session:update:before_lock").await;
 
         let mut snapshot = self.engine.get_exclusive_snapshot(query_hash).await;
 
